@@ -413,7 +413,8 @@ std::string handle(const std::string& op, Args& a)
 				throw BadArgs("stat params");
 			int id = (int) p[0];
 			std::vector<double> dom(p.begin() + 4, p.end());
-			return run_forked([&](Out& o) {
+			// in-process: up to 1e5 samples exceed the size cap of a forked child's answer; no exit path on these inputs
+			return run([&](Out& o) {
 				std::function<double(double)> f = [&](double x) { return pdf1(id, x); };
 				o << Sample_Metropolis(g, f, p[1], n, (unsigned) p[2], (unsigned) p[3], dom);
 			});
@@ -425,7 +426,7 @@ std::string handle(const std::string& op, Args& a)
 				throw BadArgs("stat params");
 			int id = (int) p[0];
 			std::vector<double> dom(p.begin() + 5, p.end());
-			return run_forked([&](Out& o) {
+			return run([&](Out& o) {
 				std::function<double(double, double)> f = [&](double x, double y) { return pdf2(id, x, y); };
 				for(auto& q : Sample_Metropolis_2D(g, f, {p[1], p[2]}, n, (unsigned) p[3], (unsigned) p[4], dom))
 					o << q.first << q.second;
